@@ -80,6 +80,10 @@ var c14Codec = probe.Define("C14", "codec", func(t *rapid.T) c14In {
 			if uint8(got.GetAttrType()) != s.Type {
 				return probe.Fail("GetAttr(%d) returned an attribute of type %d", s.Type, got.GetAttrType())
 			}
+			// encoding the packet while it is being put together must leave nothing behind
+			if err := probe.Try(func() error { _, e := ak.Marshal(); return e }); err != nil {
+				return probe.Fail("intermediate Marshal: %v", err)
+			}
 		}
 		le = &eap.EAP{Code: eap.EapCode(e.Code), Identifier: e.Identifier, EapTypeData: ak}
 	} else {
